@@ -72,3 +72,28 @@ class SepOracle:
 
     def separated_sets(self, xs, ys, cond) -> bool:
         return all(self.separated(x, y, cond) for x in xs for y in ys)
+
+
+def acyclification(nodes, di, bi):
+    """Forre-Mooij acyclification of a directed mixed graph: sigma-separation in G is d-separation in the result.
+
+    j -> i iff j is outside sc(i) and j -> k for some k in sc(i); i <-> j iff some i' in sc(i), j' in sc(j) with
+    i' == j' or i' <-> j'.  Used only for an informational label on cyclic graphs.
+    """
+    d = nx.DiGraph()
+    d.add_nodes_from(nodes)
+    d.add_edges_from((u, v) for u, v in di)
+    sc = {}
+    for comp in nx.strongly_connected_components(d):
+        for n in comp:
+            sc[n] = frozenset(comp)
+    ndi = sorted({(j, i) for (j, k) in d.edges() for i in sc[k] if j not in sc[k]})
+    bis = {frozenset(e) for e in bi}
+    nbi = set()
+    nl = list(nodes)
+    for x in range(len(nl)):
+        for y in range(x + 1, len(nl)):
+            i, j = nl[x], nl[y]
+            if sc[i] & sc[j] or any(frozenset((a, b)) in bis for a in sc[i] for b in sc[j]):
+                nbi.add((i, j))
+    return list(nodes), [list(e) for e in ndi], [list(e) for e in sorted(nbi)]
